@@ -382,7 +382,8 @@ func (t *Typechecker) VisitBinaryExpr(expr *ast.BinaryExpr) ast.VisitResult {
 		} else if ddptypes.Equal(lhs, ddptypes.KOMMAZAHL) || ddptypes.Equal(rhs, ddptypes.KOMMAZAHL) {
 			t.latestReturnedType = ddptypes.KOMMAZAHL
 		} else {
-			t.latestReturnedType = ddptypes.BYTE
+			// Zahl and Byte mixed: the result is a Zahl (as for modulo and the bitwise operators, and as it is compiled)
+			t.latestReturnedType = ddptypes.ZAHL
 		}
 	case ast.BIN_INDEX:
 		if !ddptypes.IsList(lhs) && !ddptypes.Equal(lhs, ddptypes.TEXT) {
